@@ -62,7 +62,8 @@ def snap(h):
 
 
 def restore(Heap, cap, policy, s):
-    h = Heap(cap, policy)
+    h = Heap(cap)              # (the initial states come from the constructor argument; re-built states from the public setter)
+    h.policy = policy
     h.cost = list(s[0])
     h.color = list(s[1])
     h.p = list(s[2])
@@ -246,8 +247,19 @@ def cost_value(vmap, c, ncost):
     return c
 
 
+def make_heap(Heap, cap, policy, rng):
+    """A heap under `policy`, put there one of the ways the public interface offers: the constructor argument, or the `policy` setter
+    on a heap constructed with the default / the other policy (nothing queued yet)."""
+    via = rng.randrange(3)
+    if via == 0:
+        return Heap(cap, policy)
+    h = Heap(cap) if via == 1 else Heap(cap, "max" if policy == "min" else "min")
+    h.policy = policy
+    return h
+
+
 def record_history(Heap, cap, policy, rng, nops, ncost, vmap="rank"):
-    h = Heap(cap, policy)
+    h = make_heap(Heap, cap, policy, rng)
     init = [rng.randrange(ncost) for _ in range(cap)]
     V = lambda c: cost_value(vmap, c, ncost)
     h.cost = [V(c) for c in init]
@@ -334,7 +346,7 @@ def record_history(Heap, cap, policy, rng, nops, ncost, vmap="rank"):
 def record_fill_history(Heap, cap, policy, rng, ncost=50):
     """A large heap filled to exactly its capacity (is_full asked on the way up and at the top), refused inserts at the top, some
     removes, refilled, drained: C05 speaks of *any* capacity, and nothing in the heap may depend on the capacity being small."""
-    h = Heap(cap, policy)
+    h = make_heap(Heap, cap, policy, rng)
     init = [rng.randrange(ncost) for _ in range(cap)]
     h.cost = [float(c) for c in init]
     ops = []
